@@ -4,7 +4,7 @@ from . import cast, spec as SP, e2
 
 
 def units_for(keys=None):
-    return [cast.Unit(s) for s in cast.SOURCES if s != 'Natural_Units.cpp']
+    return cast.all_units()
 
 
 def main(argv):
